@@ -147,6 +147,16 @@ fn entries_json(list: &[Entry<ClientRequest>]) -> Value {
     )
 }
 
+/// With `"sync": true` an append is acknowledged only after its bytes reached the OS: the store hands a record to
+/// tokio's file (which writes it on a blocking thread) and answers; only its flush timer (500 ms) or the next operation
+/// on the same handle waits for that write.  C04 speaks of entries "acknowledged AND FLUSHED before the kill" - reading the
+/// entry back goes through the same file handle and therefore returns after the pending write.
+async fn reach_os(store: &Arc<rnacos::raft::filestore::core::FileStore>, op: &Value, index: u64) {
+    if op["sync"].as_bool().unwrap_or(false) {
+        let _ = store.get_log_entries(index, index + 1).await;
+    }
+}
+
 pub async fn exec(app: &Arc<AppShareData>, op: &Value) -> Value {
     let store = app.raft_store.clone();
     let name = op["op"].as_str().unwrap_or("");
@@ -156,7 +166,7 @@ pub async fn exec(app: &Arc<AppShareData>, op: &Value) -> Value {
             "append" => {
                 let e = sized_entry(op["index"].as_u64().unwrap(), op["term"].as_u64().unwrap(), op["id"].as_u64().unwrap(), op["sz"].as_u64().unwrap() as usize * unit);
                 match store.append_entry_to_log(&e).await {
-                    Ok(_) => Ok(json!({"res":"ok"})),
+                    Ok(_) => { reach_os(&store, op, e.index).await; Ok(json!({"res":"ok"})) }
                     Err(e) => Ok(json!({"res": if e.to_string().contains("index not equal") {"index_error"} else {"error"}, "err": e.to_string()})),
                 }
             }
@@ -165,7 +175,7 @@ pub async fn exec(app: &Arc<AppShareData>, op: &Value) -> Value {
                     sized_entry(e["index"].as_u64().unwrap(), e["term"].as_u64().unwrap(), e["id"].as_u64().unwrap(), e["sz"].as_u64().unwrap() as usize * unit)
                 }).collect();
                 match store.replicate_to_log(&es).await {
-                    Ok(_) => Ok(json!({"res":"ok"})),
+                    Ok(_) => { if let Some(l) = es.last() { reach_os(&store, op, l.index).await; } Ok(json!({"res":"ok"})) }
                     Err(e) => Ok(json!({"res": if e.to_string().contains("index not equal") {"index_error"} else {"error"}, "err": e.to_string()})),
                 }
             }
@@ -208,7 +218,7 @@ pub async fn exec(app: &Arc<AppShareData>, op: &Value) -> Value {
                 let req: ClientRequest = serde_json::from_value(op["req"].clone())?;
                 let e = Entry { term: op["term"].as_u64().unwrap(), index: op["index"].as_u64().unwrap(), payload: EntryPayload::Normal(EntryNormal { data: req }) };
                 match store.append_entry_to_log(&e).await {
-                    Ok(_) => Ok(json!({"res":"ok"})),
+                    Ok(_) => { reach_os(&store, op, e.index).await; Ok(json!({"res":"ok"})) }
                     Err(e) => Ok(json!({"res":"error","err":e.to_string()})),
                 }
             }
